@@ -234,7 +234,11 @@ def R1_R2_dfs(ctx):
     for fn, it in (("out_edges", "out_edges_iter"), ("in_edges", "in_edges_iter")):
         b = F.need(G + fn)
         rt = nosite(deep_strip(Terms(b).return_term()))
-        ok = contains(rt, lambda s: s == ("call", G + it, (("arg", 1), ("arg", 2)))) and not [x for x in calls_in(rt) if re.search(r"Iterator>?::(take|skip|filter|step_by|rev)$", x[1])]
+        fld_ = "adj" if fn == "out_edges" else "rev"
+        # the collected iterator of the same direction, or the same lookup spelled out: keys of adj/rev[vertex]
+        direct = [x for x in subterms(clean(rt)) if x[0] == "call" and x[1].endswith("CompactOrderedHashMap::<K, V>::keys") and x[2][0] == ("call", "std::slice::<impl [T]>::get", (("field", ("arg", 1), fld_), ("field", ("arg", 2), "0")))]
+        other = [x for x in subterms(clean(rt)) if x[0] == "field" and x[1] == ("arg", 1) and x[2] in ("adj", "rev") and x[2] != fld_]
+        ok = (contains(rt, lambda s: s == ("call", G + it, (("arg", 1), ("arg", 2)))) or (bool(direct) and not other)) and not [x for x in calls_in(rt) if re.search(r"Iterator>?::(take|skip|filter|step_by|rev)$", x[1])]
         ctx.check(ok, "Graph::%s" % fn, "Graph::%s is not the collected %s" % (fn, it), b.where(), detail=it)
 
 
